@@ -177,7 +177,8 @@ def write_evidence(prop_id, tier, seed, mod, results, wall, verdict, nviol=0, fa
     ded = [(p, o) for p, o in results if o["status"] == "ok" and p.level == "deductive"]
     bnd = [(p, o) for p, o in results if o["status"] == "ok" and p.level != "deductive"]
     known_obl = {(k["violation"]["proof"], k["violation"]["obligation"]) for k in verdict["known"]}
-    obligations = sum(o["result"].n_obligations for p, o in ded)
+    # an obligation whose failure is a listed known finding is reported separately, not as a (non-)discharged obligation
+    obligations = sum(o["result"].n_obligations for p, o in ded) - len(known_obl)
     discharged = sum(o["result"].n_discharged for p, o in ded)
     funcs = {}
     ext_rules = {}
